@@ -178,8 +178,7 @@ def run_delivery(
         except BaseException as e:  # reported by the caller
             return s, got, e
         if back is not None:
-            for j in range(len(back)):
-                back[j] = 0xAA
+            back[:] = b"\xaa" * len(back)
     return s, got, None
 
 
@@ -380,8 +379,10 @@ class Bulk(Part):
 
     def check(self, c: t.Any, ctx: Ctx) -> t.List[Violation]:
         ctx.event(f"bulk:{c['what']}")
-        ctx.nontrivial((c["side"], c["what"], c["n"], tuple(c["cuts"])))
-        return check_case(self._case(c), ctx, cuts=sorted(c["cuts"]))
+        out = check_case(self._case(c), ctx, cuts=sorted(c["cuts"]))
+        if not ctx._marked:
+            ctx.nontrivial((c["side"], c["what"], c["n"], tuple(c["cuts"])))
+        return out
 
     def sample(self, c: t.Any) -> t.Any:
         return c
